@@ -390,7 +390,12 @@ class CDS(Payoff):
             if default_time > self._T
             else (1 - self.recovery_rate) * self._df(default_time)
         )
-        fixed_leg = self.spread * (1 - self._df(min(self._T, default_time))) / self._r
+        horizon = min(self._T, default_time)
+        if self._r == 0:
+            annuity = horizon  # limit of (1 - exp(-r t)) / r: no discounting with a zero rate
+        else:
+            annuity = (1 - self._df(horizon)) / self._r
+        fixed_leg = self.spread * annuity
         # small trick as payoffs are already discounted in the MC engine
         dl = default_leg / self._df_T
         fl = fixed_leg / self._df_T
